@@ -660,14 +660,17 @@ func (r *stack) transfer(dest *stack) (ok bool) {
 	// if a capacity was set, make sure
 	// the destination can handle it...
 	if dest.cap() > 0 {
-		if r.ulen() > dest.cap()-r.ulen() {
+		if r.ulen() > dest.cap()-dest.len() {
 			// capacity is in-force, and
 			// there are too many slices
-			// to xfer.
+			// to xfer into the free slots.
 			// err := errorf("failed: capacity violation"))
 			return
 		}
 	}
+
+	// note the destination length before we start
+	before := dest.ulen()
 
 	// xfer slices, without any regard for
 	// nilness. Slice type is not subject
@@ -677,8 +680,8 @@ func (r *stack) transfer(dest *stack) (ok bool) {
 		dest.push(sl)
 	}
 
-	// return result
-	ok = dest.ulen() >= r.ulen()
+	// return result: every source slice arrived
+	ok = dest.ulen() == before+r.ulen()
 
 	return
 }
